@@ -27,7 +27,7 @@ WORD_POOL = list("食車来新心的力学生日本語漢字亜唖娃阿哀愛
     list("0123456789abcXYZ-_.,:!?()[]{}<>=+*&^%$#@~`'\"\\|") + ["々", "〆", "ヶ", "ー", "・", "〜", "😀", "𠮷", "é", "∥", "¶", "φ"]
 ANNOT_POOL = WORD_POOL + [" ", ";", "\t"]
 CLASS_POOL = list("abcdknz><#*-().") + ["φ"]
-MUT_POOL = list("/\t ;,()[]-<>") + list("行五段四上一下二変名詞副助動形容連体接続感数") + ROWS + list("あんーk") + ["∥", "¶", "φ", "x", "\r", "\n", "　", "<base>", "∥<derived>", "∥<okuri-nasi>", "(-", "()", "[]"]
+MUT_POOL = list("/\t ;,()[]-<>") + list("行五段四上一下二変名詞副助動形容連体接続感数") + ROWS + list("あんーk") + ["∥", "¶", "φ", "x", "\r", "\n", "　", "<base>", "∥<derived>", "∥<okuri-nasi>", "(-", "()", "[]", "－", "(－", "ｰ", "‐", "−"]
 VCLS = ["Godan", "Yodan", "SimoIchidan", "KamiIchidan", "SimoNidan", "KamiNidan", "Hen"]
 
 
@@ -348,7 +348,7 @@ def run(tier, seed):
         else:
             l = random_unicode(rnd)
         bad.append(l)
-    bad += ["", ";", "; comment", ";; okuri-ari entries.\n", " ", "/", "あ", "あ ", "あ /", "あ //", "あ /;/", "あ /a", "あ /a/b", "あ /a;/", "あ /亜;∥/", "あ /亜;∥名詞()/", "あ /亜;∥名詞(-)/",
+    bad += ["", ";", "; comment", ";; okuri-ari entries.\n", " ", "/", "あ", "あ ", "あ /", "あ //", "あ /;/", "あ /a", "あ /a/b", "あ /a;/", "あ /亜;∥/", "あ /亜;∥名詞()/", "あ /亜;∥名詞(-)/", "あ /亜;∥名詞(－れる)/", "うごk /動;∥カ行五段(－く)/", "あ /亜;∥名詞(‐れる)/", "あ /亜;∥形容詞(-い,－く)/",
             "あ /亜;∥名詞(,-あ)/", "あ /亜;∥名詞[]/", "あ /亜;∥名詞,/", "あ /亜;∥,名詞/", "あ /亜;∥副詞/", "あ /亜;∥ア行五段/", "あ /亜;∥ワ行上二/", "あ /亜;∥ア変/", "あ /a b;∥名詞/",
             "あ /a\tb/", "あ /a b/", "み /a;∥マ行上一(-る)/", "み /é;∥形容詞(-い)/", "い /い;∥形容詞/", "あ /亜;∥形容動詞(-だ)/", "あ /😀;∥カ行五段(-く)/", "あ /亜;∥<okuri-nasi>/", "あ /亜;∥<derived>x/",
             "あ /亜∥名詞/", "あ\t/亜;∥名詞/\n", "あk/亜;∥名詞/", "あkk /亜;∥名詞/", "ア /亜;∥名詞/", "あ /亜;∥名詞/ ", "あ /亜;∥補助動詞/", "あ /亜;∥補助動詞,名詞/", "あ /亜;∥名詞 ¶note/", "あ /亜;∥文語名詞/"]
